@@ -6,16 +6,23 @@
 (***************************************************************************)
 EXTENDS Locale, Ascii, TLC, Json
 
-CONSTANT Kind     \* "match": emit matches() cases; "cmp": emit comparison cases (C12)
+CONSTANTS Kind,     \* "match": emit matches() cases; "cmp": emit comparison cases (C12)
+          Domain    \* "base": 108 identifiers x 3 extension settings; "near": 500 identifiers whose fields are NEAR
+                    \* COLLISIONS of one another (one byte apart at the first / middle / last position, one character
+                    \* longer, three-digit regions sharing two digits): an implementation that compares packed
+                    \* integers, prefixes or a few bytes at a time confuses exactly such neighbours
 VARIABLES a, b, ea, eb, ph
 
-Langs    == { B("und"), B("en"), B("de") }
-Scripts  == { <<>>, B("Latn"), B("Cyrl") }
-Regions  == { <<>>, B("US"), B("419") }
-VarLists == { <<>>, <<B("valencia")>>, <<B("1996"), B("valencia")>>, <<B("1996")>> }
+Near == Domain = "near"
+Langs    == IF Near THEN { B("und"), B("en"), B("em"), B("fn"), B("eng") } ELSE { B("und"), B("en"), B("de") }
+Scripts  == IF Near THEN { <<>>, B("Latn"), B("Lato"), B("Matn"), B("Laun") } ELSE { <<>>, B("Latn"), B("Cyrl") }
+Regions  == IF Near THEN { <<>>, B("US"), B("UT"), B("VS"), B("001"), B("005"), B("011"), B("101"), B("150"), B("154") }
+            ELSE { <<>>, B("US"), B("419") }
+VarLists == IF Near THEN { <<>>, <<B("valencia")>> }
+            ELSE { <<>>, <<B("valencia")>>, <<B("1996"), B("valencia")>>, <<B("1996")>> }
 Ids == { [lang |-> l, script |-> s, region |-> r, variants |-> v] :
            l \in Langs, s \in Scripts, r \in Regions, v \in VarLists }
-ExtKinds == {"none", "ut", "x"}
+ExtKinds == IF Near THEN {"none"} ELSE {"none", "ut", "x"}
 
 (* zero-arity constants: TLC evaluates them once                            *)
 KwCa  == << <<B("ca"), <<B("buddhist")>>>> >>
@@ -59,7 +66,7 @@ PrivateRule == \A i \in 1..4 :
 OrderTotal == /\ (a = b) = (CmpLI(a, b) = "eq")
               /\ (CmpLI(a, b) = "lt") = (CmpLI(b, a) = "gt")
               /\ a # b => (LessLI(a, b) /\ ~LessLI(b, a)) \/ (LessLI(b, a) /\ ~LessLI(a, b))
-OrderTransitive == (ea = "none" /\ eb = "none" /\ LessLI(a, b)) =>
+OrderTransitive == (~Near /\ ea = "none" /\ eb = "none" /\ LessLI(a, b)) =>
                       \A c \in Ids : LessLI(b, c) => LessLI(a, c)
 TextInjective == /\ (a = b) = (SerLI(a) = SerLI(b))
                  /\ (A = Bv) = (SerLoc(A) = SerLoc(Bv))
